@@ -1257,6 +1257,20 @@ def seed_calls(log, src):
     return [a for (sr, name, a, k, r) in log if (sr, name) == (src, "seed")]
 
 
+def split_at_seed(log, src, draw_name, rank):
+    """the draws of one source, split at its (first) `seed` call: (handed out by the AMBIENT state, handed out by the
+    seeded state); an unseeded run has everything in the first part"""
+    amb, seeded, seen = [], [], False
+    for (sr, name, a, k, r) in log:
+        if sr != src:
+            continue
+        if name == "seed":
+            seen = True
+        elif name == draw_name:
+            (seeded if seen else amb).append([rank.get(norm(x), 10 ** 6) for x in r])
+    return amb, seeded
+
+
 def check_add(ctx, drv, case, secs=8.0):
     from hypergraphx.generation.random import add_random_edge, add_random_edges
     spec = case["hg"]
@@ -1413,11 +1427,39 @@ def check_add(ctx, drv, case, secs=8.0):
             kc = slot_meaning(case, "k", case["k"], py_loop) if many else None
             mcmd = (f"addedgesM {int(inplace)} {kc} {opt(order)} {opt(size)} {hgxv.enc_lists(draws)}" if many
                     else f"addedgeM {int(inplace)} {opt(order)} {opt(size)} {hgxv.enc_list(draws[0])}")
-            am = drv.batch([load_line(before), loadm_line(mv_before), mcmd])[2]
+            # (second extension round) the SEEDED PROGRAM over the named sources on the replay generator: a seeded run
+            # finds the recording behind `seed` (seed 0 like any other) and nothing in the ambient queue; for
+            # add_random_edges the recording is FOLLOWED by further draws the loop must not take; `objM`: the object
+            # with all its tables that carries the result, and what later writes into it do to the argument
+            mseed = None if sd is None else (abs(sd) % 10 ** 9 if type(sd) is int else 1)
+            amb_q, seed_q = split_at_seed(log, "py", "sample", rank)
+            if many:
+                extra_s = [list(reversed(d)) for d in draws[:2]] + [sorted(rank.values())[:s]]
+                if sd is None:
+                    amb_q = amb_q + extra_s
+                else:
+                    seed_q = seed_q + extra_s
+                scmd = (f"addedgesS {int(inplace)} {kc} {opt(order)} {opt(size)} {opt(mseed)} "
+                        + hgxv.enc_lists(amb_q) + " " + hgxv.enc_lists(seed_q))
+            else:
+                extra_s = []
+                scmd = (f"addedgeS {int(inplace)} {opt(order)} {opt(size)} {opt(mseed)} {hgxv.enc_lists(amb_q)} "
+                        + hgxv.enc_lists(seed_q))
+            am, asd, ao = drv.batch([load_line(before), loadm_line(mv_before), mcmd, scmd,
+                                     f"objM 0 {int(inplace)}"])[2:]
             wm = call_result_m(hg, ret, rank)
             ctx.count("metadata_model_lines")
             if am != wm:
                 ctx.disagree(case, f"{mcmd.split()[0]}: model {am!r}, implementation {wm!r}")
+            ctx.count("seeded_program_lines")
+            ctx.count("seeded_program_seed0", 1 if mseed == 0 else 0)
+            ws = call_result(hg, ret, rank) + f" left {len(extra_s)}"
+            if asd != ws and (not many or isinstance(kc, int)):
+                ctx.disagree(case, f"{scmd.split()[0]} (program over named sources, seed={sd!r}): model {asd!r}, "
+                                   f"implementation {ws!r}")
+            wo = obj_kind(hg, ret) + (" 1" if obj_kind(hg, ret) == "fresh" else "")
+            if ao != wo:
+                ctx.disagree(case, f"{what}: object with tables - model {ao!r}, implementation {wo!r}")
     if not inplace:
         check_independent(ctx, case, hg, ret, rank, before, before_inc, what)
 
@@ -1631,11 +1673,31 @@ def check_shuffle(ctx, drv, case, secs=8.0):
             else:
                 mcmd = (f"shuffleM {int(inplace)} {opt(order)} {opt(size)} {pn} {pd} "
                         + hgxv.enc_list(parts[0]["idx"]) + " " + hgxv.enc_lists(parts[0]["choices"]))
-            am = drv.batch([load_line(before), loadm_line(mv_before), mcmd])[2]
+            lines = [load_line(before), loadm_line(mv_before), mcmd, f"objM {int(allo)} {int(inplace)}"]
+            sd_s = seed_obj
+            if not allo and cmd.startswith("shuffle "):
+                # (second extension round) random_shuffle as a program over the named sources: np.random is seeded (queue
+                # behind the seed, seed 0 included), the positions come from the AMBIENT random queue
+                mseed = None if seed_obj is None else (0 if (type(seed_obj) is int and seed_obj == 0) else 1)
+                amb_q, seed_q = split_at_seed(log, "np", "choice", rank)
+                lines.append("shuffleS " + cmd[len("shuffle "):] + f"{opt(mseed)} " + hgxv.enc_lists([parts[0]["idx"]])
+                             + " " + hgxv.enc_lists(amb_q) + " " + hgxv.enc_lists(seed_q))
+            res = drv.batch(lines)
+            am, ao = res[2], res[3]
             wm = call_result_m(hg, ret, rank)
             ctx.count("metadata_model_lines")
             if am != wm:
                 ctx.disagree(case, f"{mcmd.split()[0]}: model {am!r}, implementation {wm!r}")
+            wo = obj_kind(hg, ret) + (" 1" if obj_kind(hg, ret) == "fresh" else "")
+            if ao != wo:
+                ctx.disagree(case, f"{what}: object with tables - model {ao!r}, implementation {wo!r}")
+            if len(lines) == 5:
+                ctx.count("seeded_program_lines")
+                ctx.count("seeded_program_seed0", 1 if mseed == 0 else 0)
+                ws = call_result(hg, ret, rank) + " left 0 0"
+                if res[4] != ws:
+                    ctx.disagree(case, f"shuffleS (program over named sources, seed={sd_s!r}): model {res[4]!r}, "
+                                       f"implementation {ws!r}")
     if not inplace:
         check_independent(ctx, case, hg, ret, rank, before, before_inc, what)
 
